@@ -267,6 +267,15 @@ func c17Layout(c *Ctx) {
 	// the entries of a received Route list live in as many per-line lists as the sender chose to write lines: the only
 	// list-level edits that mean the same for every layout are "drop the first entry" (the pops) and what the decoder
 	// builds. An entry added to one line's list (a new adder on Route) lands in a place that depends on the layout.
+	ruleRouteSetEdits(c, rule)
+	c17Views(c)
+}
+
+// ruleRouteSetEdits: the entry list of a Route header line is written by its decoder and by delete-first only (shared
+// with C03/C13: the Route hop is the first entry of what is left; nothing else takes entries out of, or puts entries
+// into, the route set).
+func ruleRouteSetEdits(c *Ctx, rule string) {
+	w := c.w
 	ref := "Route.routeParams"
 	allowed := map[string]bool{"ParseRoute": true, "(*Route).PopRouteParam": true, "NewRoute": true}
 	n := 0
@@ -280,7 +289,6 @@ func c17Layout(c *Ctx) {
 		}
 	}
 	c.check(n >= 2, rule, ref+"/writers", "-", "decoder and pop found", fmt.Sprintf("only %d writers of %s found", n, ref))
-	c17Views(c)
 }
 
 // c17Views: what GetVia()/GetRoute() hand out is a view of ONE header line (the first one), valid until the list is
